@@ -132,6 +132,7 @@ func checkCmd(args []string) int {
 	famCounts := map[string]int{}
 	var templates []*FamTemplate
 	doneSym := map[string]bool{}
+	scenCount := 0
 	for _, un := range plan.Units {
 		if un.Lemma != "" {
 			var lm *Lemma
@@ -188,6 +189,19 @@ func checkCmd(args []string) int {
 			}
 			for _, x := range r.Untrans {
 				untrans = append(untrans, un.Func+": "+x)
+			}
+		}
+		if un.Scen {
+			for _, sc := range fi.Contract.Scenarios {
+				r := u.verifyScenario(fi, sc)
+				groups = append(groups, r.Obligs)
+				for k := range r.Axioms {
+					axioms[k] = true
+				}
+				for _, x := range r.Untrans {
+					untrans = append(untrans, un.Func+" (scenario "+sc.Name+"): "+x)
+				}
+				scenCount++
 			}
 		}
 		for _, fam := range fi.Contract.Families {
@@ -417,6 +431,7 @@ func checkCmd(args []string) int {
 			"functions_under_contract": fl,
 			"obligations_by_kind":    byKind,
 			"ground_families":        tdefs,
+			"scenarios_executed":     scenCount,
 			"exhaustive":             true,
 			"solver_queries":         d.Stats.BySolver,
 			"solver_ms":              d.Stats.MillisBy,
@@ -442,7 +457,7 @@ func checkCmd(args []string) int {
 	return 0
 }
 
-var expectedMin = map[string]int{"C01": 5000, "C02": 15000, "C03": 340000, "C04": 10000, "C05": 70000, "C20": 200, "C06": 400000, "C13": 400000}
+var expectedMin = map[string]int{"C01": 5000, "C02": 15000, "C03": 340000, "C04": 10000, "C05": 70000, "C20": 200, "C06": 400000, "C13": 400000, "C07": 3000, "C08": 2500, "C09": 5000, "C10": 6000, "C11": 5000, "C12": 8000, "C14": 400000}
 
 func contractFiles(u *Universe) []string {
 	seen := map[string]bool{}
